@@ -152,18 +152,14 @@ def _tie_generic(ctx, divs):
     lines, meta = [], []
     for _ in range(n):
         cfg = rand_cfg(rng)
-        m = xf.build(cfg)
         rows, lens = rand_batch(rng, cfg)
         masks = masks_of(rows, lens)
         if all(l == len(r) for r, l in zip(rows, lens)) and rng.random() < 0.5:
             masks = None
-        if cfg.head == "pv":
-            ids = sorted(rng.sample(range(max_move_id()), N_SUB))
-            n_out, w = xf.export(m, cfg, ids)
-        else:
-            ids = None
-            n_out, w = xf.export(m, cfg)
+        ids = sorted(rng.sample(range(max_move_id()), N_SUB)) if cfg.head == "pv" else None
         try:
+            m = xf.build(cfg)
+            n_out, w = xf.export(m, cfg, ids) if ids is not None else xf.export(m, cfg)
             out = run_model(m, rows, masks)
             impl = [out_vec(out, cfg, i, lens[i], ids) for i in range(len(rows))]
         except FATAL:
@@ -217,8 +213,15 @@ def _tie_rejects(ctx, divs):
     lines, meta = [], []
     for _ in range(60 if ctx.thorough else 16):
         cfg = rand_cfg(rng, head="text")
-        m = xf.build(cfg)
-        n_out, w = xf.export(m, cfg)
+        try:
+            m = xf.build(cfg)
+            n_out, w = xf.export(m, cfg)
+        except FATAL:
+            raise
+        except Exception as e:
+            divs.append(Divergence("corr.xformer", {"kind": "tie", "cfg": cfg.to_json(), "rows": [[0]], "lens": [1], "mask": False, "index": 0}, crash_text(e), "a model of this shape can be built"))
+            ctx.count("model-mismatch")
+            continue
         what = rng.choice(["token", "long", "maskwidth"])
         n = rng.randint(1, cfg.n_ctx)
         row = [rng.randrange(cfg.n_vocab) for _ in range(n)]
@@ -517,7 +520,14 @@ def _tie_call_sites(ctx, divs):
         cfg = rand_cfg(rng, head="pv", n_vocab=256, min_ctx=max(len(e) for _, e in pe), dmax=4 if full else 12)
         if full:
             cfg.n_layer = 1
-        m = xf.build(cfg)
+        try:
+            m = xf.build(cfg)
+        except FATAL:
+            raise
+        except Exception as e:
+            ctx.count("model-mismatch")
+            divs.append(Divergence("corr.xformer", {"kind": "tie", "cfg": cfg.to_json(), "rows": [[0]], "lens": [1], "mask": False, "index": 0}, crash_text(e), "a model of this shape can be built"))
+            continue
         runs, evals, rounds, problems = call_site_runs(rng, cfg, m, pe)
         rounds_str = [[ser.pos_str(pe[i][0]) for i in r] for r in rounds]
         for site, text in problems:
